@@ -18,7 +18,7 @@ var profile = life.Profile{
 	MaxChain: 1, MaxChildren: 0, Lifecycle: true, SpawnSends: true, MaxBudget: 4,
 	// chains of more than 300 self-sends (the inbox's throughput bound) followed by gates and stop
 	// requests: whatever the inbox does when it yields, Stopped stays the last thing an incarnation gets
-	WChain: 1, Spins: []int{0, 0, 10, 100},
+	WChain: 3, Spins: []int{0, 0, 10, 100},
 }
 
 // non-trivial: the history contains at least one stop request and at least one crash, or
